@@ -48,7 +48,8 @@ class ParseContext:
 
     @property
     def _root(self):
-        obj = self._
+        # The outermost context is its own root
+        obj = self
         while obj._ is not None:
             obj = obj._
         return obj
